@@ -155,6 +155,19 @@ func driveC15(args []string) error {
 		if i%4 == 0 {
 			gcase.spread = 2 // reflect: the triangle wave
 		}
+		if i%8 == 3 {
+			// a "flat" gradient (every stop the same colour) must still obey its spread: none is transparent outside [0,1]
+			for k := range gcase.stops {
+				gcase.stops[k].C = gcase.stops[0].C
+			}
+			if gcase.stops[0].C[3] == 0 {
+				gcase.stops[0].C = [4]int{10, 20, 30, 200}
+				for k := range gcase.stops {
+					gcase.stops[k].C = gcase.stops[0].C
+				}
+			}
+			gcase.spread = []int{0, 0, 3, 2}[i/8%4]
+		}
 		// (A) render.Gradient built directly
 		var g render.Gradient
 		var st []render.Stop
